@@ -101,6 +101,23 @@ CHECKS = {
    note='two defects repaired (rotate_to bare squeeze; single vector with channel_last=False). Index range theorems are those of C01 / C04 / C09 / C12.',
    technique='Coq proof (shape calculus over lists of extents) + regenerated call sites + exhaustive-over-options correspondence with the documented shape evaluated in Coq',
    ref='DESIGN.md section 4 C13'),
+ 'C05': dict(
+   text='Theorems (Coq, reals, every L >= 2): the regenerated FSQ.bound kernel is tanh(z + atanh(offset/half_l)) * half_l - offset with range (-half_l - offset, half_l - offset), strictly increasing, 0 -> 0; the quantizer round(bound)/floor(L/2) is a non-decreasing step function '
+        'whose level is always one of the L declared levels (for eps (L-1) < 1), inside [-1,1], every level reachable (explicit pre-image), thresholds at the pre-images of half-integers, odd-symmetric for odd L, saturating at the extreme levels; '
+        'symmetry-preserving mode: output is a point of the uniform L-grid within half a step of tanh z (nearest grid point), monotone; LFQ: +scale iff x > 0; per-dimension map. '
+        'Tie: bound / symmetric-bound / LFQ kernels, offset, half width and the quantize branches regenerated from the source; for every L in 2..16 and both modes the level returned by the implementation on exponent sweeps, plateau boundaries +- 3 ulps and random inputs '
+        'is certified against the real bounding function by one `interval` goal per sample (about 2500 kernel-checked goals per quick run); LFQ sign rule evaluated at Q; tensors / codebooks / layouts / training flag vs the scalar map.',
+   note='libm tanh/atanh modelled by the real functions within 2e-5 of a level; round-half-even vs other tie rules is not distinguishable through float tanh; thorough tier adds larger L and denser sweeps (not all 2^32 bit patterns).',
+   technique='Coq proof (reals, Flocq rounding) + regenerated kernels + per-sample certification with the interval tactic + exact LFQ correspondence in Coq',
+   ref='DESIGN.md section 4 C05'),
+ 'C19': dict(
+   text='Theorems (Coq, reals): deterministic fallback (temperature <= 0, evaluation mode or no flag => plain argmax = nearest code); Gumbel-max selection is an exponential race: code j beats code i iff E_j / w_j <= E_i / w_i with E = -ln u and w = exp(logit/T); '
+        'the selected index wins every pairwise race; the race integrand is w_j exp(-(sum w) t); its integral over [0,a] is (w_j / W)(1 - exp(-W a)) with limit w_j / W, i.e. softmax(logits/T)_j; the weights sum to one. '
+        'Tie: noise guard, gumbel_noise / gumbel_sample bodies and temperature resolution regenerated and pinned; for every token of recorded stochastic calls (VectorQuantize, ResidualVQ layers, Euclid / cosine, configured and per-call temperatures) the selected index is certified '
+        'to win every race for the CAPTURED uniforms by `interval`; deterministic configurations return the first maximal logit (Coq, exact); 1e5-draw frequencies vs the closed form (chi-square, support only).',
+   note='PARTIAL as named: the probability space (independent uniforms, the conditioning formula P(j) = race integral) is definitional; frequencies are support, not proof.',
+   technique='Coq proof (exp/ln algebra, Coquelicot integral and limit) + regenerated guard/dataflow + interval-certified race inequalities on captured noise + exact fallback correspondence',
+   ref='DESIGN.md section 4 C19'),
  'C12': dict(
    text='Theorems (Coq, axiom-free, all n, cutoff, multiple_of, draws r): the layers that run are exactly the prefix {0..k-1} with k = min(n, round_up(r+1, m)); cutoff < k <= n; m | k or k = n; '
         'dropped layers form a suffix; every admissible k is produced by some in-contract draw; dropout is off when not training / indices supplied / dropout disabled / one layer. '
